@@ -38,6 +38,37 @@ REQUIRED_COUNTERS = [
     "minProperties", "maxProperties", "propertyNames", "dependencies", "anyOf", "oneOf", "allOf", "not",
 )]
 
+ANCHORS = [
+    "statham.schema.parser:parse_element",
+    "statham.schema.parser:_parse_composition",
+    "statham.schema.parser:_compose_elements",
+    "statham.schema.parser:_parse_multi_typed",
+    "statham.schema.parser:_parse_object",
+    "statham.schema.parser:_parse_properties",
+    "statham.schema.parser:_parse_items",
+    "statham.schema.parser:_parse_dependencies",
+    "statham.schema.elements.base:Element.__call__",
+    "statham.schema.elements.object:Object.__new__",
+    "statham.schema.elements.composition:_attempt_schemas",
+    "statham.schema.elements.composition:Not.construct",
+    "statham.schema.elements.properties:Properties.__getitem__",
+    "statham.schema.elements.items:Items.__getitem__",
+    "statham.schema.validation.base:_is_instance",
+    "statham.schema.validation.base:Const._validate",
+    "statham.schema.validation.base:Enum._validate",
+    "statham.schema.validation.array:UniqueItems._validate",
+    "statham.schema.validation.array:AdditionalItems._validate",
+    "statham.schema.validation.array:Contains._validate",
+    "statham.schema.validation.numeric:MultipleOf._validate",
+    "statham.schema.validation.object:Required.from_element",
+    "statham.schema.validation.object:AdditionalProperties._validate",
+    "statham.schema.validation.object:Dependencies._validate",
+    "statham.schema.validation.object:PropertyNames._validate",
+    "statham.schema.validation.string:Pattern._validate",
+    "statham.schema.validation.string:Format._validate",
+    "statham.schema.elements.meta:ObjectMeta.validators",
+]
+
 
 def plan(tier):
     if tier == "quick":
